@@ -289,6 +289,7 @@ func propC20(c *Ctx, r *Report) {
 		r.check(len(bad) == 0 && n > 0, "C20/validate-table", "PTicker.UnmarshalJSON yields only table values or Invalid", c.pos(um.Pos()), "", strings.Join(bad, "; "))
 	}
 	ruleInputAmountBound(c, r, "C20/validate-table")
+	ruleValidDataTable(c, r, "C20/valid-data")
 	ruleValidateBounds(c, r, "C20/transfer-sum-exact")
 
 	// the string converted is the string the user typed
